@@ -53,8 +53,8 @@ def yields(R):
     q = S + '.run'
     g = R.cfg(q, genexit=True)
     rd = ReachingDefs(g)
-    pub = [n for n in g.live_nodes() if n.kind == 'stmt' and isinstance(n.ast, ast.Assign) and U(n.ast.targets[0]) == 'self._sock'
-           and U(n.ast.value) != 'None']
+    from .common import sock_publications
+    pub = sock_publications(g)
     need(len(pub) == 1, 'run(): publication of the socket not found')
     cs = [n for (n, c_) in calls_to(R, g, S + '._close_socket') if U(c_.func) == 'self._close_socket']
     # (cleanup routed through websocket.on_disconnect() / websocket.session acts on the WebSocket's *current* session,
